@@ -62,7 +62,7 @@ def queries(tier):
           seq("seq_wait_handoff", ["Q_HANDOFF", "VM_PT_GHOST"], 2, 2, 2, spurious=1),
           seq("seq_return_codes", ["Q_RC", "VM_PT_FAULTS"], 1, 1, 1),
           Q("seq_wait_releases_via_api", "harness/C03_release.c", units=UNITS, models=PT, defs=caps(2, nmtx=2, ncv=2),
-            hdefs=["VM_CW_HOOK=other_context", "VM_CW_RELEASE"], includes=REDIR_PT, funcs=FUNCS + ["p_mutex_trylock"], timeout=300,
+            hdefs=["VM_CW_HOOK=other_context", "VM_CW_RELEASE"], includes=REDIR_PT, funcs=FUNCS + ["p_mutex_trylock"], timeout=300, unwind=3,
             bounds={"contexts": "A (waiter) + B (run to completion at A's blocking point, nested emulation)", "mutexes": 2, "conditions": 2,
                     "B_entry": "p_mutex_trylock or p_mutex_lock (symbolic)"})]
     if tier == "quick":
